@@ -417,7 +417,9 @@ func newFix(cs *Case) (*fix, error) {
 	return f, nil
 }
 
-func (f *fix) buildTx(d *TxD) *types.Transaction {
+func (f *fix) buildTx(d *TxD) *types.Transaction { return buildTx(d) }
+
+func buildTx(d *TxD) *types.Transaction {
 	tx := &types.Transaction{Type: d.Type, AccountNonce: d.Nonce, Epoch: d.Epoch, Amount: d.Amount, MaxFee: d.MaxFee, Tips: d.Tips}
 	if d.To != nil {
 		a := AddrOf(*d.To)
